@@ -105,7 +105,8 @@ def main(argv=None):
         return 3
 
     results = runner.run_units(jobs, procs=a.procs or None, timeout_ms=timeout_ms, use_cvc5=(tier == "thorough"),
-                               while_bound=spec.get("while_bound", 16)) if jobs else []
+                               while_bound=spec.get("while_bound", 16),
+                               unit_timeout_s=(600 if tier == "quick" else 3000)) if jobs else []
 
     # ---------------------------------------------------------------- classify
     n_ob = n_dis = 0
